@@ -508,7 +508,9 @@ Proof.
     apply git_rename_one_valid; assumption.
   - apply bzr_commit_valid; assumption.
   - (* Git commit *) unfold git_commit. destruct Hv as [Hi Hb].
-    destruct (g_notadir s); intros H; inversion H; subst; simpl; [split; assumption|]. split.
+    destruct (g_notadir s); [intros H; inversion H; subst; split; assumption|].
+    destruct (git_pairs s true); [discriminate|].
+    intros H; inversion H; subst; simpl. split.
     + apply NoDup_filter; assumption.
     + apply NoDup_map_filter. rewrite map_map. simpl. rewrite map_id. assumption.
   - apply bzr_revert_valid; assumption.
